@@ -2,7 +2,7 @@
 import sys, os
 sys.path.insert(0, os.path.dirname(os.path.dirname(os.path.abspath(__file__))))
 from aovc.check import run_check
-from contracts import optics
+from contracts import optics, fourier
 
 
 def build(chk):
@@ -11,6 +11,11 @@ def build(chk):
     chk.notes.append("requires: square N x N input, N even, wvl, d1, d2 > 0; ft2/ift2 used through their C09 contract")
     optics.c11_obligations(chk)
     optics.c11_orientation(chk)
+    # the propagator identities use ft2 / ift2 through their contract and assume the input field is not modified: both are re-checked here
+    with chk.borrow("C09"):
+        fourier.obligations(chk, real_variants=False)
+    with chk.borrow("C10"):
+        optics.c10_obligations(chk)
     chk.confirm_known("C11-negative-distance-orientation", "orientation", {"m": 0.8, "z": 100.0})
     chk.not_decided.append("reproduces the analytic Gaussian beam (width, curvature, Gouy phase) and the Airy pattern: continuous-limit statements, no per-call contract")
     chk.not_decided.append("numerical agreement between angular-spectrum and Fresnel propagators on coinciding grids (different discretisations; only orientation/kernel form is decided)")
